@@ -965,7 +965,46 @@ func (g *HistGen) genQuery() {
 	g.ops = append(g.ops, g.searchOp("query"))
 }
 
+func pkAttrsOf(t *TableSpec) []string {
+	out := []string{t.Hash[0]}
+	if t.Range != nil {
+		out = append(out, t.Range[0])
+	}
+	return out
+}
+
 func (g *HistGen) genPages() {
+	// several items under one index key, read page by page through the index while the item a page ends on is deleted:
+	// the next page goes on behind the deleted one, among the items that share its index key
+	if t := g.pickTable(); len(t.GSI) > 0 && t.Name != "nosuchtable" && g.r.Chance(12) {
+		ix := pick(g.r, t.GSI)
+		if ix.Hash[1] == "S" && ix.Hash[0] != t.Hash[0] && (t.Range == nil || ix.Hash[0] != t.Range[0]) && (ix.Range == nil || ix.Range[1] == "S") {
+			for i := 0; i < 3; i++ {
+				it := g.genKey(t)
+				has := map[string]bool{}
+				for _, kv := range it {
+					has[string(kv.K)] = true
+				}
+				if has[ix.Hash[0]] {
+					continue
+				}
+				it = append(it, KV{[]byte(ix.Hash[0]), S("tie")})
+				if ix.Range != nil && !has[ix.Range[0]] {
+					it = append(it, KV{[]byte(ix.Range[0]), S("same")})
+					has[ix.Range[0]] = true
+				}
+				if !has["v"] {
+					it = append(it, KV{[]byte("v"), S("1")})
+				}
+				g.ops = append(g.ops, &Op{Op: "put", Table: HexS(t.Name), Item: it})
+				g.notePut(t, it)
+			}
+			n := 0
+			g.ops = append(g.ops, &Op{Op: "pages", Table: HexS(t.Name), Index: HexS(ix.Name), Scan: true, Forward: true, Limit: 1, MaxPages: 40, DelAfter: &n,
+				pkAttrs: pkAttrsOf(t)})
+			return
+		}
+	}
 	op := g.searchOp("pages")
 	if op.BadKeyCond == "" && g.r.Chance(g.p.DelBoundary) {
 		n := g.r.Intn(2)
@@ -1006,7 +1045,7 @@ func (g *HistGen) genBatchWrite() {
 	// a request that is neither or both put and delete is rejected before anything is written, in whatever
 	// order the tables are visited: such a batch may span two tables; a bad key only fails when its turn comes
 	shapeOnly := bad && g.r.Chance(50)
-	if (!bad || shapeOnly) && len(live) > 1 && g.r.Chance(40) {
+	if (!bad || shapeOnly) && len(live) > 1 && (g.r.Chance(40) || shapeOnly) {
 		nt = 2
 	}
 	total := 0
